@@ -52,8 +52,10 @@ type Step struct {
 	Draw    *Drawing `json:"draw,omitempty"`
 	Format  string   `json:"format,omitempty"`
 	Opt     int      `json:"opt,omitempty"`
-	Repeat  bool     `json:"repeat,omitempty"`  // render: render the same canvas object a second time, the output must be identical
-	FailAt  int      `json:"fail_at,omitempty"` // render: the sink returns an error from the k-th Write on (0 = never)
+	// SharedFace k > 0: the text uses face k of the run's shared *FontFace objects instead of a face of its own
+	SharedFace int  `json:"shared_face,omitempty"`
+	Repeat     bool `json:"repeat,omitempty"`  // render: render the same canvas object a second time, the output must be identical
+	FailAt     int  `json:"fail_at,omitempty"` // render: the sink returns an error from the k-th Write on (0 = never)
 }
 
 // Drawing is a small canvas program rendered by the "render" operation.
@@ -66,22 +68,23 @@ type Drawing struct {
 
 // DrawItem is one drawing command.
 type DrawItem struct {
-	Kind   string    `json:"kind"`            // path | text
-	Paint  int       `json:"paint,omitempty"` // 0 colour, 1 linear gradient, 2 radial gradient, 3 line hatch, 4 cross hatch
-	Shape  *Shape    `json:"shape,omitempty"`
-	Fill   [4]uint8  `json:"fill"`
-	Stroke [4]uint8  `json:"stroke"`
-	SW     float64   `json:"sw,omitempty"`
-	Dashes []float64 `json:"dashes,omitempty"`
-	Z      int       `json:"z,omitempty"`
-	X      float64   `json:"x,omitempty"`
-	Y      float64   `json:"y,omitempty"`
-	Rot    float64   `json:"rot,omitempty"`
-	Font   int       `json:"font,omitempty"`
-	Size   float64   `json:"size,omitempty"`
-	Text   string    `json:"text,omitempty"`
-	Deco   int       `json:"deco,omitempty"`
-	Style  int       `json:"style,omitempty"`
+	Kind       string    `json:"kind"` // path | text
+	SharedFace int       `json:"shared_face,omitempty"`
+	Paint      int       `json:"paint,omitempty"` // 0 colour, 1 linear gradient, 2 radial gradient, 3 line hatch, 4 cross hatch
+	Shape      *Shape    `json:"shape,omitempty"`
+	Fill       [4]uint8  `json:"fill"`
+	Stroke     [4]uint8  `json:"stroke"`
+	SW         float64   `json:"sw,omitempty"`
+	Dashes     []float64 `json:"dashes,omitempty"`
+	Z          int       `json:"z,omitempty"`
+	X          float64   `json:"x,omitempty"`
+	Y          float64   `json:"y,omitempty"`
+	Rot        float64   `json:"rot,omitempty"`
+	Font       int       `json:"font,omitempty"`
+	Size       float64   `json:"size,omitempty"`
+	Text       string    `json:"text,omitempty"`
+	Deco       int       `json:"deco,omitempty"`
+	Style      int       `json:"style,omitempty"`
 	// image: ImgW x ImgH pixels generated from ImgSeed (ImgKind 0 opaque RGBA, 1 with alpha, 2 NRGBA, 3 gray), drawn at Res dots/mm
 	ImgW    int     `json:"img_w,omitempty"`
 	ImgH    int     `json:"img_h,omitempty"`
